@@ -251,7 +251,9 @@ public:
       size_t a = static_cast<size_t>(o.a) % nc, b = static_cast<size_t>(o.b) % nc;
       Cell& d = w.cells[a]; Cell& s = w.cells[b];
       if (d.isAuto && !okForAuto(s.c)) { ctx.outcome("skip"); return; }
-      *d.obj = *s.obj;                 // copies name, value, precision, constraint
+      bpp::AutoParameter* da = dynamic_cast<bpp::AutoParameter*>(d.obj.get()); bpp::AutoParameter* sa = dynamic_cast<bpp::AutoParameter*>(s.obj.get());
+      if (da && sa && (o.c & 1)) { *da = *sa; ctx.probe("auto-parameter-assignment"); }     // the auto-correcting variant's own assignment (also carries the message handler)
+      else *d.obj = *s.obj;            // copies name, value, precision, constraint
       invariantsAfterAssignName(d, s);
       d.v = s.v; d.c = s.c; d.prec = s.prec;
       ctx.ok();
@@ -606,7 +608,7 @@ public:
     i.rule = "plans: seeded histories over <=10 parameter objects reached directly, through two lists (cloned/shared entries) and an owning object, with a pool of <=8 shared constraint objects; values are drawn from the order-type alphabet of the target's current bounds; non-trivial = >=3 accepted state-changing steps and >=1 rejected update or auto-correction fired; distinct = distinct fingerprint of the executed op-kind/outcome sequence";
     i.simTime = "steps (no clock in this component)";
     i.faultKinds = {"reject@k", "stream-fail", "storage-flip"};
-    i.probeNames = {"construct-zero-excluded", "auto-corrected", "share-became-update", "equal-bounds-constraint", "intersection-equal-bounds", "bulk-rejected-with-other-entries", "foreign-name-before-later-entries", "library-internal-parameters-audited"};
+    i.probeNames = {"construct-zero-excluded", "auto-parameter-assignment", "auto-corrected", "share-became-update", "equal-bounds-constraint", "intersection-equal-bounds", "bulk-rejected-with-other-entries", "foreign-name-before-later-entries", "library-internal-parameters-audited"};
     i.assumptions = {"constraint objects are never mutated while attached to a parameter (operator&= only on unattached pool entries): external mutation through getConstraint() is not a constraint update in the statement's sense",
                      "equal infinite bounds: isEmpty not asserted",
                      "auto-correcting parameters only carry non-empty constraints at least 1e-9 wide (the property's quantifier)",
